@@ -96,6 +96,8 @@ extern "C" int LLVMFuzzerTestOneInput(const uint8_t* data, size_t size)
         op.c    = r.arg();
         p.ops.push_back(op);
     }
+    if (std::getenv("VF_DUMP"))
+        write_file(g_out + "/fz-dump.prog", to_text(g_spec, g_config, p)); // artifact -> program text
     CaseInfo ci;
     Verdict  v = the_target().run(g_spec, p, ci);
     g_stats.add(g_spec, g_config, p, ci);
